@@ -262,11 +262,13 @@ def make_machine(col, stage, tier, checks, profile=None, max_conns=3, kinds=('me
             self.gens = [histgen.ConnGen(t, s, profile) for t, s in zip(tags, sides)]
             self.t = d.choice([0, 1000, 123456789, 4_000_000_000])
             self.tr = Tracker(dialect)
+            self.burst0 = d.int(1, 6) if d.chance(0.25) else 0     # messages carrying the very time of the first one
 
         def _step(self, data, kind):
             d = Draw(data)
             g = d.choice(self.gens)
-            self.t = min(self.t + histgen.next_gap(d), histgen.T_MAX)
+            if self.case['specs'] and len(self.case['specs']) > self.burst0:
+                self.t = min(self.t + histgen.next_gap(d), histgen.T_MAX)
             m = g.next(d, kind)
             m['conn'] = g.tag
             m['t_us'] = self.t
